@@ -30,11 +30,16 @@ def experiment_level(ctx, nexp):
              dict(envs=[["lin", 5, 8], ["lin", 5, 9]], lrns=[["failing", "predict", 3], ["kwargs"]], vals=[["seq"]], groups=[], triples=[[0, 0, 0], [1, 1, 0], [1, 0, 0], [0, 1, 0]]),
              # an environment object that can be iterated like a pipeline and whose iteration fails: only its own triples are lost
              dict(envs=[["lin", 6, 3], ["lin", 6, 4]], lrns=[["finish"], ["count", 1]], vals=[["seq"]], groups=[], triples=[[0, 0, 0], [1, 0, 0], [0, 1, 0], [1, 1, 0]]),
-             dict(envs=[["failiter", 0], ["lin", 6, 4]], lrns=[["count", 1], ["kwargs"]], vals=[["seq"]], groups=[], triples=[[0, 0, 0], [1, 0, 0], [0, 1, 0], [1, 1, 0]])]
+             dict(envs=[["failiter", 0], ["lin", 6, 4]], lrns=[["count", 1], ["kwargs"]], vals=[["seq"]], groups=[], triples=[[0, 0, 0], [1, 0, 0], [0, 1, 0], [1, 1, 0]]),
+             # one stateful learner for two environments that share a chunk, on worker processes: each evaluation starts from the pristine learner
+             dict(envs=[["group", 0, 0], ["group", 0, 1]], lrns=[["count", 1], ["kwargs"]], vals=[["seq"]], groups=[dict(n=8, seed=6, prefix="chunk", fan=2)], triples=[[0, 0, 0], [1, 0, 0], [0, 1, 0], [1, 1, 0]], conf=(2, 0, 0)),
+             # one RejectionCB object for logged environments with different logging propensities
+             dict(envs=[["group", 0, 0], ["group", 1, 0]], lrns=[["count", 1]], vals=[["rej"]], groups=[dict(n=30, seed=3, prefix=None, fan=1, logged=True, logger="eps", na=2), dict(n=30, seed=4, prefix=None, fan=1, logged=True, na=4)],
+                  triples=[[0, 0, 0], [1, 0, 0]])]
     for _ in range(nexp): specs.append(expcore.gen_spec(rng, failures=True, batched=True))
     jobs, index = [], []
     for si, spec in enumerate(specs):
-        conf = (1, 0, 0) if si < 4 else rng.choice([(1, 0, 0), (1, 0, 0), (1, 0, 2), (2, 0, 0)])
+        conf = tuple(spec["conf"]) if spec.get("conf") else (1, 0, 0) if si < 4 else rng.choice([(1, 0, 0), (1, 0, 0), (1, 0, 2), (2, 0, 0)])
         jobs.append(dict(spec=spec, p=conf[0], mc=conf[1], mt=conf[2], seed=1)); index.append((si, None, conf))
         for ti in range(len(spec["triples"])):
             jobs.append(dict(spec=spec, p=1, mc=1, mt=0, seed=1, only=ti)); index.append((si, ti, (1, 1, 0)))
